@@ -1,15 +1,20 @@
 (** C16 — the headline statements in the property's own wording, assembled from the invariants of
     RollingSeqProofs.v (exclusive interface) and RollingConcProofs.v (shared interface).
 
+    An appender lifetime starts with [restart c sp t0]: an appender built at clock [t0] over whatever state [sp]
+    the previous lifetimes left ([GoodFS sp]; [blank pre tick0] for a directory nobody has written to through
+    the model yet; [init c pre tick0 t0 = restart c (blank pre tick0) t0]).
+
     Vocabulary used by Properties/C16.v:
-    - [stored_in s n]: everything the appender has appended to the files called [n], in append order —
+    - [stored_in s n]: everything the appender(s) appended to the files called [n], in append order —
       the incarnations of that name which pruning removed ([grave], oldest removal first), then the live one;
     - [belongs c t0 n ws]: the writes of [ws] whose period's file is [n], in write order;
-    - [annotate m ws]: every write with the flag "its clock reading is not behind an earlier one";
+    - [annotate m ws]: every write with the flag "its clock reading is not behind an earlier one of this lifetime";
     - [accepted c s evs i]: the make_writer calls thread [i] starts along the schedule [evs] (a [Start] for a
       thread that is still inside a call is not enabled), [done_by s i] the ones it completed, in order,
-      [inflight s i] the one it is inside. *)
-From Coq Require Import ZArith NArith List String Bool Lia Sorted.
+      [inflight s i] the one it is inside;
+    - [run_lives s ls]: several lifetimes (configuration, construction clock, writes) one after the other. *)
+From Coq Require Import ZArith NArith List String Bool Lia Sorted Permutation.
 From TV Require Import Appender.RollingModel Appender.RollingTimeProofs Appender.RollingNameProofs
   Appender.RollingDirProofs Appender.RollingFsProofs Appender.RollingConcProofs Appender.RollingSeqProofs.
 Import ListNotations.
@@ -31,60 +36,97 @@ Proof. induction l as [|a l IH]; simpl; auto. destruct (p (f a)); simpl; congrue
 Lemma stored_is_landed s : Stored s -> forall n, stored_in s n = landed_in n (lands s).
 Proof. intros H n. apply H. Qed.
 
+Lemma landed_in_app n new old : landed_in n (new ++ old) = landed_in n old ++ landed_in n new.
+Proof. unfold landed_in. rewrite rev_app_distr, filter_app, map_app. reflexivity. Qed.
+
+Lemma init_is_restart c pre tick0 t0 : init c pre tick0 t0 = restart c (blank pre tick0) t0.
+Proof. reflexivity. Qed.
+
+(** * Building an appender over a non-empty directory *)
+Section Restart.
+  Variable c : config.
+  Variable sp : state.
+  Variable t0 : Z.
+  Hypothesis Ht0 : 0 <= t0 < TBOUND.
+
+  (** nothing is removed, renamed, truncated or re-stamped at construction (no pruning there); the only entry that
+      can be new is an empty file for the construction time's period, and it is made only when no file of that
+      name exists - an existing one is opened for append *)
+  Theorem restart_keeps_files :
+    (forall f, In f (dir sp) -> In f (dir (restart c sp t0))) /\
+    (forall f, In f (dir (restart c sp t0)) -> In f (dir sp) \/
+       (in_dir (join_date c t0) (dir sp) = false /\
+        f = {| fname := join_date c t0; created := tick sp; base := []; landed := [] |})) /\
+    cur (restart c sp t0) = join_date c t0 /\ in_dir (join_date c t0) (dir (restart c sp t0)) = true /\
+    next (restart c sp t0) = next_usize (rot c) t0 /\ grave (restart c sp t0) = grave sp /\
+    lands (restart c sp t0) = lands sp /\ refreshed (restart c sp t0) = false /\ life (restart c sp t0) = S (life sp).
+  Proof.
+    unfold restart. rewrite (next_ok_small (rot c) t0 (proj2 Ht0)).
+    destruct (create_cases (join_date c t0) (dir sp) (tick sp)) as [[E Hx]|[E Hx]]; rewrite Hx; simpl.
+    - repeat split; auto.
+    - repeat split; auto.
+      + intros f Hf. apply in_or_app; auto.
+      + intros f Hf. apply in_app_or in Hf. destruct Hf as [Hf|[<-|[]]]; auto.
+      + apply in_dir_iff. eexists. split; [apply in_or_app; right; left; reflexivity|reflexivity].
+  Qed.
+
+  (** outside the range of the [time] crate the constructor panics inside next_date, before anything is touched *)
+  Theorem restart_out_of_range : forall t, next_ok (rot c) t = false ->
+    restart c sp t = bump_panics sp /\ dir (restart c sp t) = dir sp.
+  Proof. intros t H. unfold restart. rewrite H. auto. Qed.
+End Restart.
+
 (** * Exclusive interface *)
 Section Exclusive.
   Variable c : config.
-  Variable pre : list file.
-  Variable tick0 : N.
+  Variable sp : state.
   Variable t0 : Z.
   Hypothesis Ht0 : 0 <= t0 < TBOUND.
-  Hypothesis Hpre : PreOK pre tick0.
-  Let s0 := init c pre tick0 t0.
+  Hypothesis Hsp : GoodFS sp.
+  Let s0 := restart c sp t0.
 
-  (** the headline: under a non-decreasing clock the files called [n] hold exactly the buffers whose
-      write time lies in the period [n] is named for — each once, whole, in write order *)
+  (** the headline, for one lifetime over whatever was there: under a non-decreasing clock the files called [n]
+      gain exactly the buffers whose write time lies in the period [n] is named for — each once, whole, in write
+      order, AFTER what earlier lifetimes had appended to that name (append, not truncate) *)
   Theorem x_contents_by_period : forall ws, Forall valid_w ws -> StronglySorted Z.le (t0 :: map fst ws) ->
-    forall n, stored_in (run_x c s0 ws) n = belongs c t0 n ws.
+    forall n, stored_in (run_x c s0 ws) n = stored_in sp n ++ belongs c t0 n ws.
   Proof.
-    intros ws V S n.
-    destruct (x_never_lost c pre tick0 t0 Ht0 Hpre ws V) as [HS [_ HL]].
-    destruct (x_lands_nondecreasing c pre tick0 t0 Ht0 Hpre ws V S) as [_ HP].
-    fold s0 in HS, HL, HP. rewrite (stored_is_landed _ HS). unfold landed_in, belongs.
-    set (s := run_x c s0 ws) in *.
-    transitivity (filter (fun w => String.eqb (period_file c t0 (fst w)) n) (map key (rev (lands s)))).
+    intros ws V Srt n.
+    destruct (x_never_lost c sp t0 Ht0 Hsp ws V) as [HS [_ [[new [E1 [E2 E3]]] _]]]. fold s0 in HS, E1.
+    rewrite (stored_is_landed _ HS), E1, landed_in_app. f_equal; [symmetry; apply stored_is_landed; apply Hsp|].
+    unfold landed_in, belongs.
+    assert (Hnd : forall l, In l new -> l_nd l = true).
+    { intros l Hl. apply in_rev in Hl.
+      apply (in_map (fun l => (l_t l, l_buf l, l_nd l))) in Hl. rewrite E2 in Hl.
+      inversion Srt; subst. rewrite Forall_forall in H2.
+      apply (annotate_sorted ws t0 H2 H1 _ Hl). }
+    assert (Hk : map key (rev new) = ws).
+    { clear - E2 Hnd. assert (G : forall ws m (L : list land), map (fun l => (l_t l, l_buf l, l_nd l)) L = annotate m ws -> map key L = ws).
+      { induction ws0 as [|[t b] ws0 IH]; intros m L H; destruct L; simpl in *; try discriminate; auto.
+        inversion H. unfold key at 1. rewrite H1, H2. f_equal. eapply IH; eauto. }
+      eapply G; eauto. }
+    transitivity (filter (fun w => String.eqb (period_file c t0 (fst w)) n) (map key (rev new))).
     - rewrite <- (map_filter_comm key (fun w => String.eqb (period_file c t0 (fst w)) n)).
-      fold key. f_equal. apply filter_ext_in. intros l Hl. apply in_rev in Hl. rewrite (HP l Hl). reflexivity.
-    - unfold key. rewrite HL. reflexivity.
+      fold key. f_equal. apply filter_ext_in. intros l Hl. apply in_rev in Hl.
+      assert (Hin : In l (lands (run_x c s0 ws))) by (rewrite E1; apply in_or_app; auto).
+      rewrite (x_lands_in_period c sp t0 Ht0 Hsp ws V l Hin (E3 l Hl) (Hnd l Hl)). reflexivity.
+    - rewrite Hk. reflexivity.
   Qed.
 
-  (** every clock: which flags the landings carry *)
-  Fixpoint annotate (m : Z) (ws : list (Z * chunk)) : list (Z * chunk * bool) :=
-    match ws with
-    | [] => []
-    | w :: r => (fst w, snd w, m <=? fst w) :: annotate (Z.max m (fst w)) r
-    end.
-
-  Lemma run_x_annot : forall ws s,
-    map (fun l => (l_t l, l_buf l, l_nd l)) (rev (lands (run_x c s ws))) =
-    map (fun l => (l_t l, l_buf l, l_nd l)) (rev (lands s)) ++ annotate (maxstart s) ws.
-  Proof.
-    induction ws as [|[t b] ws IH]; simpl; intros s; [rewrite app_nil_r; reflexivity|].
-    rewrite IH. unfold write_x. simpl. rewrite map_app. simpl. rewrite <- app_assoc. simpl.
-    destruct (should_rollover s t); [|reflexivity].
-    destruct (refresh_fields c (set_next s (next_usize (rot c) t)) t) as [_ [_ [_ [_ [_ [_ [_ [R8 _]]]]]]]]. rewrite R8. reflexivity.
-  Qed.
-
-  (** any clock readings (also backward steps): every buffer is stored exactly once, whole, in write order
-      per file; the writes whose reading is not behind an earlier one are in their period's file *)
+  (** any clock readings (also backward steps): every buffer is stored exactly once, whole, in write order per
+      file; the writes whose reading is not behind an earlier one are in their period's file *)
   Theorem x_contents_any_clock : forall ws, Forall valid_w ws ->
-    map (fun l => (l_t l, l_buf l, l_nd l)) (rev (lands (run_x c s0 ws))) = annotate t0 ws /\
+    (exists new, lands (run_x c s0 ws) = new ++ lands sp /\
+                 map (fun l => (l_t l, l_buf l, l_nd l)) (rev new) = annotate t0 ws /\
+                 (forall l, In l new -> l_life l = S (life sp) /\ (l_nd l = true -> l_file l = period_file c t0 (l_t l)))) /\
     (forall n, stored_in (run_x c s0 ws) n = landed_in n (lands (run_x c s0 ws))) /\
-    (forall l, In l (lands (run_x c s0 ws)) -> l_nd l = true -> l_file l = period_file c t0 (l_t l)) /\
-    in_dir (cur (run_x c s0 ws)) (dir (run_x c s0 ws)) = true.
+    in_dir (cur (run_x c s0 ws)) (dir (run_x c s0 ws)) = true /\
+    GoodFS (run_x c s0 ws).
   Proof.
-    intros ws V. destruct (x_never_lost c pre tick0 t0 Ht0 Hpre ws V) as [HS [HC _]]. fold s0 in HS, HC.
-    split; [|split; [apply stored_is_landed; exact HS|split; [apply (x_lands_in_period c pre tick0 t0 Ht0 Hpre ws V)|exact HC]]].
-    rewrite run_x_annot. unfold s0, init. destruct (create _ _ _). reflexivity.
+    intros ws V. destruct (x_never_lost c sp t0 Ht0 Hsp ws V) as [HS [HC [[new [E1 [E2 E3]]] HG]]]. fold s0 in HS, HC, E1, HG.
+    split; [|split; [apply stored_is_landed; exact HS|split; [exact HC|exact HG]]].
+    exists new. split; [exact E1|split; [exact E2|]]. intros l Hl. split; [apply E3; auto|]. intros Hnd.
+    apply (x_lands_in_period c sp t0 Ht0 Hsp ws V); auto. fold s0. rewrite E1. apply in_or_app; auto.
   Qed.
 
   (** a clock reading at or past next_date rotates: the write goes to the file of its own period and
@@ -98,17 +140,46 @@ Section Exclusive.
   Proof.
     intros ws t b V Ht Hn Hle. set (s := run_x c s0 ws) in *.
     assert (Hk : rot c <> Never).
-    { intro Hk. destruct (XInv_run c t0 ws s0 (XInv_init c pre tick0 t0 Ht0 Hpre) V) as [_ [_ [XN _]]].
+    { intro Hk. destruct (XInv_run c sp t0 ws s0 (XInv_init c sp t0 Ht0 Hsp) V) as [_ [_ [XN _]]].
       fold s in XN. destruct (XN Hk). contradiction. }
     assert (E : should_rollover s t = Some (next s)).
     { unfold should_rollover. rewrite to_usize_small by assumption.
       destruct (next s =? 0) eqn:E0; [apply Z.eqb_eq in E0; contradiction|].
       destruct (next s <=? t) eqn:E1; [reflexivity|apply Z.leb_gt in E1; lia]. }
-    unfold write_x. rewrite E.
+    rewrite write_x_in_range by apply Ht. unfold write_x_ok. rewrite E.
     destruct (refresh_fields c (set_next s (next_usize (rot c) t)) t) as [R1 [R2 [_ [_ [_ [_ [_ [_ [_ [R10 _]]]]]]]]]].
     simpl. rewrite R1, R2, R10. simpl. pose proof (next_usize_gt (rot c) t Hk Ht). repeat split; auto.
   Qed.
+
+  (** beyond the range in which next_date is defined a rotation-due write panics inside advance_date: nothing is
+      written, created, removed or advanced (the caller sees the panic) *)
+  Theorem x_write_out_of_range : forall s t b n, should_rollover s t = Some n -> next_ok (rot c) t = false ->
+    write_x c s t b = bump_panics s.
+  Proof. intros s t b n H1 H2. unfold write_x. rewrite H1, H2. reflexivity. Qed.
 End Exclusive.
+
+(** * Several lifetimes over one directory (exclusive interface): restarts *)
+Definition lifetime : Type := (config * Z * list (Z * chunk))%type.
+Definition run_lives (s : state) (ls : list lifetime) : state :=
+  fold_left (fun s l => let '(c, t0, ws) := l in run_x c (restart c s t0) ws) ls s.
+Definition life_ok (l : lifetime) : Prop :=
+  let '(c, t0, ws) := l in 0 <= t0 < TBOUND /\ Forall valid_w ws /\ StronglySorted Z.le (t0 :: map fst ws).
+
+(** across restarts - the configuration (also the limit, also the naming) and the clock may differ from lifetime
+    to lifetime, the clock may even be behind the previous lifetime's: the files called [n] hold, in order, what
+    each lifetime's writes of [n]'s period contributed; the state stays fit for the next appender *)
+Theorem lives_contents : forall ls s, GoodFS s -> Forall life_ok ls ->
+  GoodFS (run_lives s ls) /\
+  forall n, stored_in (run_lives s ls) n =
+            stored_in s n ++ flat_map (fun l : lifetime => let '(c, t0, ws) := l in belongs c t0 n ws) ls.
+Proof.
+  induction ls as [|[[c t0] ws] ls IH]; simpl; intros s G V.
+  - split; auto. intro n. rewrite app_nil_r. reflexivity.
+  - inversion V; subst. destruct H1 as [Ht0 [Vw Srt]].
+    destruct (x_contents_any_clock c s t0 Ht0 G ws Vw) as [_ [_ [_ G']]].
+    destruct (IH _ G' H2) as [G'' E]. split; [exact G''|]. intro n.
+    unfold run_lives in E. rewrite E. rewrite (x_contents_by_period c s t0 Ht0 G ws Vw Srt n), <- app_assoc. reflexivity.
+Qed.
 
 (** * Shared interface: every make_writer call that ran to completion has exactly one landing *)
 Definition buf_of (p : pc) : chunk :=
@@ -128,13 +199,11 @@ Fixpoint accepted (c : config) (s : state) (evs : list event) (i : nat) : list (
   | e :: r => starts s e i ++ accepted c (step c s e) r i
   end.
 
-Lemma inflight_upd_same s p i : inflight (with_pcs s (upd (pcs s) i (Some p))) i = [(time_of p, buf_of p)].
-Proof. unfold inflight. simpl. rewrite upd_same. reflexivity. Qed.
-
-Lemma step_progress c s e i :
+(** one step, in a state where no pending compare_exchange can panic (every clock reading in range) *)
+Lemma step_progress c s e i : (forall j p, pcs s j = Some p -> time_of p < TBOUND) ->
   done_by (step c s e) i ++ inflight (step c s e) i = (done_by s i ++ inflight s i) ++ starts s e i.
 Proof.
-  destruct e as [j t b|j]; unfold starts.
+  intros HB. destruct e as [j t b|j]; unfold starts.
   - (* Start *)
     unfold step, is_idle. destruct (pcs s j) as [p|] eqn:Hp.
     + rewrite andb_false_r, app_nil_r. reflexivity.
@@ -149,6 +218,7 @@ Proof.
       destruct (should_rollover s t); unfold done_by, inflight; simpl; f_equal; unfold upd;
         destruct (Nat.eqb i j) eqn:E; auto; apply Nat.eqb_eq in E; subst; rewrite Hp; reflexivity.
     + (* cas *)
+      rewrite (next_ok_small (rot c) t (HB _ _ Hp)). simpl.
       destruct (next s =? n); unfold done_by, inflight; simpl; f_equal; unfold upd;
         destruct (Nat.eqb i j) eqn:E; auto; apply Nat.eqb_eq in E; subst; rewrite Hp; reflexivity.
     + (* refresh *)
@@ -169,58 +239,61 @@ Proof.
       * rewrite Nat.eqb_sym, E. simpl. rewrite app_nil_r. reflexivity.
 Qed.
 
-Lemma run_progress c : forall evs s i,
+Lemma run_progress c sp t0 : 0 <= t0 < TBOUND -> forall evs s i, reach c sp t0 s -> Forall valid_ev evs ->
   done_by (run c s evs) i ++ inflight (run c s evs) i = (done_by s i ++ inflight s i) ++ accepted c s evs i.
 Proof.
-  unfold run. induction evs as [|e evs IH]; simpl; intros s i; [rewrite app_nil_r; reflexivity|].
-  rewrite IH, step_progress, <- app_assoc. reflexivity.
+  intros Ht0. unfold run. induction evs as [|e evs IH]; simpl; intros s i R V; [rewrite app_nil_r; reflexivity|].
+  inversion V; subst. rewrite IH by (auto; constructor; auto). rewrite step_progress, <- app_assoc; [reflexivity|].
+  intros j p Hp. apply (proj1 (invT c sp t0 Ht0 s R) j p Hp).
 Qed.
 
-(** per thread: the calls it completed (each landed exactly once, in the order it made them) followed by
-    the one it is inside are exactly the calls it started *)
-Theorem shared_every_call_lands_once c pre tick0 t0 : forall evs i,
-  done_by (run c (init c pre tick0 t0) evs) i ++ inflight (run c (init c pre tick0 t0) evs) i =
-  accepted c (init c pre tick0 t0) evs i.
+(** per thread: the calls it completed in this lifetime (each landed exactly once, in the order it made them)
+    followed by the one it is inside are exactly the calls it started *)
+Theorem shared_every_call_lands_once c sp t0 : 0 <= t0 < TBOUND -> forall evs i, Forall valid_ev evs ->
+  done_by (run c (restart c sp t0) evs) i ++ inflight (run c (restart c sp t0) evs) i =
+  done_by sp i ++ accepted c (restart c sp t0) evs i.
 Proof.
-  intros evs i. rewrite run_progress. unfold init. destruct (create _ _ _). reflexivity.
+  intros Ht0 evs i V. rewrite (run_progress c sp t0 Ht0 evs _ i (reach_init c sp t0) V). f_equal.
+  unfold restart. rewrite (next_ok_small (rot c) t0 (proj2 Ht0)). destruct (create _ _ _). unfold done_by, inflight. simpl.
+  rewrite app_nil_r. reflexivity.
 Qed.
 
 (** * Shared interface: the statements of Properties/C16.v *)
 Section SharedMain.
   Variable c : config.
-  Variable pre : list file.
-  Variable tick0 : N.
+  Variable sp : state.
   Variable t0 : Z.
   Hypothesis Ht0 : 0 <= t0 < TBOUND.
-  Hypothesis Hpre : PreOK pre tick0.
-  Let s0 := init c pre tick0 t0.
+  Hypothesis Hsp : GoodFS sp.
+  Let s0 := restart c sp t0.
 
   (** the code as it is now (make_writer re-checks next_date under the write lock): EVERY schedule *)
   Theorem shared_lands_in_period_recheck : recheck c = true ->
     forall evs, Forall valid_ev evs ->
-    forall l, In l (lands (run c s0 evs)) -> l_clean l = true -> l_nd l = true ->
+    forall l, In l (lands (run c s0 evs)) -> l_life l = S (life sp) -> l_clean l = true -> l_nd l = true ->
       l_file l = period_file c t0 (l_t l).
-  Proof. intros Hr evs V. apply (shared_lands_in_period c pre tick0 t0 Ht0 evs V). left; exact Hr. Qed.
+  Proof. intros Hr evs V. apply (shared_lands_in_period c sp t0 Ht0 Hsp evs V). left; exact Hr. Qed.
 
   (** the code before the repair of F16: only the schedules in which no compare_exchange is won while
       another winner has not refreshed yet *)
   Theorem shared_lands_in_period_norecheck :
     forall evs, Forall valid_ev evs -> overlapped (run c s0 evs) = false ->
-    forall l, In l (lands (run c s0 evs)) -> l_clean l = true -> l_nd l = true ->
+    forall l, In l (lands (run c s0 evs)) -> l_life l = S (life sp) -> l_clean l = true -> l_nd l = true ->
       l_file l = period_file c t0 (l_t l).
-  Proof. intros evs V Ho. apply (shared_lands_in_period c pre tick0 t0 Ht0 evs V). right; exact Ho. Qed.
+  Proof. intros evs V Ho. apply (shared_lands_in_period c sp t0 Ht0 Hsp evs V). right; exact Ho. Qed.
 
   (** never lost, for every schedule, with or without the re-check *)
   Theorem shared_never_lost_full : forall evs, Forall valid_ev evs ->
     (forall n, stored_in (run c s0 evs) n = landed_in n (lands (run c s0 evs))) /\
-    (forall i, done_by (run c s0 evs) i ++ inflight (run c s0 evs) i = accepted c s0 evs i) /\
+    (forall i, done_by (run c s0 evs) i ++ inflight (run c s0 evs) i = done_by sp i ++ accepted c s0 evs i) /\
     in_dir (cur (run c s0 evs)) (dir (run c s0 evs)) = true /\
-    (forall l, In l (lands (run c s0 evs)) -> opened c t0 (rots (run c s0 evs)) (l_file l)) /\
-    DirOK (dir (run c s0 evs)) (tick (run c s0 evs)).
+    (forall l, In l (lands (run c s0 evs)) -> l_life l = S (life sp) -> opened c t0 (rots (run c s0 evs)) (l_file l)) /\
+    life (run c s0 evs) = S (life sp) /\ GoodFS (run c s0 evs).
   Proof.
-    intros evs V. destruct (shared_never_lost c pre tick0 t0 Ht0 Hpre evs V) as [HS [HC [_ HD]]]. fold s0 in HS, HC, HD.
-    split; [apply stored_is_landed; exact HS|]. split; [intro i; apply shared_every_call_lands_once|].
-    split; [exact HC|]. split; [apply (shared_lands_in_opened_file c pre tick0 t0 Ht0 evs V)|exact HD].
+    intros evs V. destruct (shared_never_lost c sp t0 Ht0 Hsp evs V) as [HS [HC _]]. fold s0 in HS, HC.
+    destruct (shared_epoch c sp t0 Ht0 Hsp evs V) as [E G]. fold s0 in E, G.
+    split; [apply stored_is_landed; exact HS|]. split; [intro i; apply shared_every_call_lands_once; auto|].
+    split; [exact HC|]. split; [apply (shared_lands_in_opened_file c sp t0 Ht0 Hsp evs V)|auto].
   Qed.
 
   Theorem shared_no_rotation_backwards_full : forall evs, Forall valid_ev evs ->
@@ -235,8 +308,8 @@ Section SharedMain.
        dir (step c (run c s0 evs) (Step i)) = dir (run c s0 evs) /\
        pcs (step c (run c s0 evs) (Step i)) i = Some (PRead t b g)).
   Proof.
-    intros evs V. destruct (shared_no_rotation_backwards c pre tick0 t0 Ht0 evs V) as [H1 [H2 _]].
-    split; [exact H1|split; [exact H2|]]. apply (shared_backwards_step c pre tick0 t0 Ht0 evs V).
+    intros evs V. destruct (shared_no_rotation_backwards c sp t0 Ht0 evs V) as [H1 [H2 _]].
+    split; [exact H1|split; [exact H2|]]. apply (shared_backwards_step c sp t0 Ht0 evs V).
   Qed.
 
   Theorem shared_one_rotation_full : forall evs, Forall valid_ev evs ->
@@ -246,17 +319,19 @@ Section SharedMain.
     (forall i t b n g, pcs (run c s0 evs) i = Some (PCas t b n g) ->
        exists j u, In (j, n, u) (rots (step c (run c s0 evs) (Step i)))).
   Proof.
-    intros evs V. destruct (shared_one_rotation_per_boundary c pre tick0 t0 Ht0 evs V) as [H1 [H2 H3]].
-    split; [exact H1|split; [exact H2|split; [exact H3|]]]. apply (shared_cas_elects c pre tick0 t0 Ht0 evs V).
+    intros evs V. destruct (shared_one_rotation_per_boundary c sp t0 Ht0 evs V) as [H1 [H2 H3]].
+    split; [exact H1|split; [exact H2|split; [exact H3|]]]. apply (shared_cas_elects c sp t0 Ht0 evs V).
   Qed.
 
+  (** also for a lifetime that starts above the limit (a restart in a later period, a lowered limit): from its first
+      completed rotation on *)
   Theorem prune_limit_both : forall m, max_files c = Some m -> (1 <= m)%nat ->
     (forall ws, Forall valid_w ws -> refreshed (run_x c s0 ws) = true -> (count_logs c (dir (run_x c s0 ws)) <= m)%nat) /\
     (forall evs, Forall valid_ev evs -> refreshed (run c s0 evs) = true -> (count_logs c (dir (run c s0 evs)) <= m)%nat).
   Proof.
     intros m Hm H1. split.
-    - intros ws V R. apply (x_prune_limit c pre tick0 t0 Ht0 Hpre ws V R m Hm H1).
-    - intros evs V R. apply (shared_prune_limit c pre tick0 t0 Ht0 Hpre evs V R m Hm H1).
+    - intros ws V R. apply (x_prune_limit c sp t0 Ht0 Hsp ws V R m Hm H1).
+    - intros evs V R. apply (shared_prune_limit c sp t0 Ht0 Hsp evs V R m Hm H1).
   Qed.
 
   (** the directory is well-formed (unique names, unique creation stamps) wherever a rotation can start *)
@@ -265,7 +340,23 @@ Section SharedMain.
     (forall evs, Forall valid_ev evs -> DirOK (dir (run c s0 evs)) (tick (run c s0 evs))).
   Proof.
     split.
-    - intros ws V. apply (XInv_run c t0 ws s0 (XInv_init c pre tick0 t0 Ht0 Hpre) V).
-    - intros evs V. apply (shared_never_lost c pre tick0 t0 Ht0 Hpre evs V).
+    - intros ws V. apply (XInv_run c sp t0 ws s0 (XInv_init c sp t0 Ht0 Hsp) V).
+    - intros evs V. apply (shared_never_lost c sp t0 Ht0 Hsp evs V).
   Qed.
+
+  (** entries that are not the appender's own log files are never removed, renamed or written - both interfaces *)
+  Theorem foreign_untouched_both : forall f, In f (dir sp) -> matches c (fname f) = false ->
+    (forall ws, Forall valid_w ws -> In f (dir (run_x c s0 ws))) /\
+    (forall evs, Forall valid_ev evs -> In f (dir (run c s0 evs))).
+  Proof.
+    intros f Hf Hnm. split.
+    - intros ws V. apply (x_foreign_untouched c sp t0 Ht0 Hsp ws V f Hf Hnm).
+    - intros evs V. apply (shared_foreign_untouched c sp t0 Ht0 Hsp evs V f Hf Hnm).
+  Qed.
+
+  (** the shared panic branch: a compare_exchange attempt whose clock reading is beyond the range of next_date
+      panics before the exchange - the call ends, nothing else changes *)
+  Theorem shared_cas_out_of_range : forall s i t b n g, pcs s i = Some (PCas t b n g) -> next_ok (rot c) t = false ->
+    step c s (Step i) = with_pcs (bump_panics s) (upd (pcs s) i None).
+  Proof. intros s i t b n g Hp Hok. simpl. rewrite Hp, Hok. reflexivity. Qed.
 End SharedMain.
